@@ -19,7 +19,7 @@ from . import wire
 VERIF = os.path.dirname(os.path.dirname(os.path.abspath(__file__)))
 LEAN = os.path.join(VERIF, "lean")
 HARNESS = os.path.join(VERIF, "harness")
-REPO = "/repo"
+REPO = os.environ.get("VERIF_REPO", "/repo")    # VERIF_REPO: tools/par_seeded.py evaluates seeded changes on scratch copies; the registered checks never set it
 CTX = {}
 ADMISSIBLE_AXIOMS = {"propext", "Classical.choice", "Quot.sound"}
 GOENV = dict(os.environ, GOFLAGS="-mod=mod", GOPROXY="off", GOSUMDB="off", GOTOOLCHAIN="local",
